@@ -134,6 +134,10 @@ def order(seed, tier):
     n = 40 if tier == "thorough" else 10
     for k in range(n):
         npub, nsub = rng.randint(1, 4), rng.randint(1, 3)
+        if k % 2:
+            # run concurrently: every placement of the per-session fan-out steps of publishes that overlap in time is explored by the
+            # validation, which grows quickly with the number of publishers and sessions - keep both small here
+            npub, nsub = min(npub, 2), min(nsub, 2)
         steps = []
         for s in range(nsub):
             steps += [Gen.open("S%d" % s, clean=False), Gen.sub("S%d" % s, ("t/#", rng.randint(0, 2)), ("t/x", rng.randint(0, 2)))]
